@@ -181,13 +181,29 @@ CLAIMS["C16"] = {
             "normal(loc, scale, size) == loc + scale * standard normals (numpy contract); draws non-zero",
     "technique": TECH,
 }
+CLAIMS["C12"] = {
+    "level": "other",
+    "text": "Partial (engine-side bookkeeping; the numerical MD trajectories are outside). (1) add_to_path on every path state, symbolic "
+            "limit, order value and interfaces: a frame is appended unless the path is full, the path never exceeds the limit, stop <=> "
+            "outside or limit reached, success <=> the last frame is outside. (2) EngineBase.propagate: the first frame is the given phase "
+            "point, velocities are reversed on disk iff direction != vel_rev, the system handed on has the propagation direction. "
+            "(3) the real _propagate_from of LAMMPS, CP2K and GROMACS under a fake process (symbolic exit time / return code) and fake "
+            "readers delivering tagged frames in nondeterministic batches: frame k references configuration k and its stored order "
+            "parameter was computed from x_k, box_k, v_k with that frame's direction applied once; propagation stops at the first frame "
+            "outside / at the limit; the program is killed iff still running, waited for once; a failed program raises; a completed run "
+            "returns all frames.",
+    "design_ref": "DESIGN.md section 3 C12 (H12)",
+    "note": "process/reader/file layer are stubs with the stated contracts; ASE/TurtleMD in-process loops, the TRR reader inside "
+            "GromacsRunner and the MD programs themselves are outside",
+    "technique": TECH,
+}
 PENDING = "check not built yet in this revision (see DESIGN.md for the plan); no claim is made"
 NOT_APPLICABLE = {
     "C01": "statistical convergence of a whole stochastic sampler: no bounded symbolic encoding; its algebraic obligations are decided under C02/C04/C09/C10/C11",
     "C08": "quantifies over crash positions in a trace of OS file-system effects and the outcome of TOML/path parsers on truncated trees: not symbolically executable with the installed tools (fault enumeration is a different technique family)",
     "C19": "every clause is a round trip through C-level text/binary codecs (str.format/float, struct, re, genfromtxt): not executable on symbolic data here",
 }
-for _p in ["C12", "C13"]:
+for _p in ["C13"]:
     if _p not in CLAIMS:
         NOT_APPLICABLE[_p] = PENDING
 NOTES = ("All checks: exit 0 held within the stated bounds; exit 1 + VIOLATION line only for a counterexample that was replayed "
